@@ -425,12 +425,15 @@ TRUSTED_BASE = [
 
 
 def standard_flow(ctx, feat, gen_cases, oracle=None, nontrivial=None, classify=None, describe=None,
-                  model=True, extra=None, rule=""):
+                  model=True, extra=None, rule="", regen=None):
     """The common flow. gen_cases(ctx) -> list of case lines.
     oracle(case, impl_out) -> None if fine else a string describing the failure.
     classify(case, impl_out, failure) -> known-finding dict or None."""
-    proof_ok = ctx.coq()
     try:
+        ctx.harness = harness_build(feat)
+        if regen:
+            regen(ctx)
+        proof_ok = ctx.coq()
         ctx.build(feat, model=model)
     except BuildError as e:
         ctx.log(str(e))
